@@ -5,6 +5,8 @@ from harness import hist as H
 TOL = 2
 SEG_ACTS = H.actions('seg', H.FULL_OPS)
 MSG_ACTS = H.actions('msg', H.FULL_OPS)
+FLD_ACTS = H.actions('fld', H.FULL_OPS)
+NFLD, NINIT_FLD = len(FLD_ACTS), 2
 CORE_SEG_ACTS = H.actions('seg', H.CORE_OPS)
 CORE_MSG_ACTS = H.actions('msg', H.CORE_OPS)
 NSEG, NMSG, NCORE, NCOREM = len(SEG_ACTS), len(MSG_ACTS), len(CORE_SEG_ACTS), len(CORE_MSG_ACTS)
@@ -93,6 +95,19 @@ def _ob_msg2(init: int, a1: int, a2: int) -> bool:
         return run('msg', init, [MSG_ACTS[a1], MSG_ACTS[a2]])
 
 
+def _ob_fld2(init: int, a1: int, a2: int) -> bool:
+    """
+    pre: 0 <= init < NINIT_FLD and 0 <= a1 < NFLD and 0 <= a2 < NFLD
+    pre: in_part(a1)
+    post: _
+    """
+    init = H.concretize(init, NINIT_FLD)
+    a1 = H.concretize(a1, NFLD)
+    a2 = H.concretize(a2, NFLD)
+    with concrete():
+        return run('fld', init, [FLD_ACTS[a1], FLD_ACTS[a2]])
+
+
 def _ob_msg3c(init: int, a1: int, a2: int, a3: int) -> bool:
     """
     pre: 0 <= init < NINIT_MSG and 1 <= a1 < NCOREM and 1 <= a2 < NCOREM and 1 <= a3 < NCOREM
@@ -108,7 +123,7 @@ def _ob_msg3c(init: int, a1: int, a2: int, a3: int) -> bool:
 
 
 OBS = {'_ob_seg2': ('seg', SEG_ACTS), '_ob_seg3c': ('seg', CORE_SEG_ACTS), '_ob_seg3': ('seg', SEG_ACTS),
-       '_ob_msg2': ('msg', MSG_ACTS), '_ob_msg3c': ('msg', CORE_MSG_ACTS)}
+       '_ob_msg2': ('msg', MSG_ACTS), '_ob_msg3c': ('msg', CORE_MSG_ACTS), '_ob_fld2': ('fld', FLD_ACTS)}
 
 
 def explain(call):
@@ -142,13 +157,15 @@ SPEC = {
                     'certify that it was exhausted; once a path has fixed the history, the library code runs concretely '
                     '(untraced) on it - the solver contributes exhaustion and counterexamples, not abstraction, here'],
     'outside': ['histories longer than the bound; children other than PID_3/PID_5/PID_8 of PID and NK1/OBX/AL1 of ADT_A01; '
-                'groups and fields as targets; STRICT'],
+                'groups as targets; fields other than PID_5 (components XPN_1/XPN_2/XPN_7); STRICT'],
     'stubs': [],
     'obligations': [
         {'name': 'seg.len2', 'fn': '_ob_seg2', 'parts': 16, 'cond_timeout': 600, 'path_timeout': 40,
          'bound': 'Segment PID, %d initial states x every history of length <=2 over %d actions (%s)' % (NINIT_SEG, NSEG, _FULL)},
         {'name': 'msg.len2', 'fn': '_ob_msg2', 'parts': 16, 'cond_timeout': 600, 'path_timeout': 60,
          'bound': 'Message ADT_A01, %d initial states x every history of length <=2 over %d actions (%s)' % (NINIT_MSG, NMSG, _FULL)},
+        {'name': 'fld.len2', 'fn': '_ob_fld2', 'parts': 16, 'cond_timeout': 600, 'path_timeout': 40,
+         'bound': 'Field PID_5, %d initial states x every history of length <=2 over %d actions (%s)' % (NINIT_FLD, NFLD, _FULL)},
         {'name': 'seg.len3.core', 'fn': '_ob_seg3c', 'parts': 32, 'cond_timeout': 900, 'path_timeout': 40,
          'bound': 'Segment PID, %d initial states x every history of length 3 over the %d core actions (%s)' % (NINIT_SEG, NCORE - 1, _CORE)},
     ] + ([
